@@ -163,13 +163,26 @@ def rule_r1(rep, repo):
                     rep.violation("R1.argument-fan-out", f.qual, f"crossed:{tname}",
                                   f"{fn}(..., {tname}={norm(expr)[:40]}) is fed from `{sorted(dep & others)}` instead of `{own}`",
                                   repo.rel("molgrid", call))
-        # default aim weights
-        dflt = [s for s in ast.walk(f.node) if isinstance(s, ast.If) and norm(s.test) == "aim_weights is None"]
-        if dflt and any("BeckeWeights(" in norm(x) for x in dflt[0].body):
-            rep.ok("R1.default-aim-weights", f"MolGrid.{cname}", repo.rel("molgrid", dflt[0]), norm(dflt[0].body[0])[:60])
-        else:
+        # default aim weights: None (and only None) is replaced by the documented default
+        dflt = [s_ for s_ in ast.walk(f.node) if isinstance(s_, ast.If) and norm(s_.test) == "aim_weights is None"]
+        asg = [s_ for s_ in ast.walk(f.node) if isinstance(s_, ast.Assign) and norm(s_.targets[0]) == "aim_weights"]
+        okd = bool(dflt) and any("BeckeWeights(" in norm(x) for x in dflt[0].body)
+        okd = okd or any(isinstance(a.value, ast.IfExp) and norm(a.value.test) in ("aim_weights is None", "aim_weights is not None")
+                         and "BeckeWeights(" in norm(a.value) for a in asg)
+        truthy = [a for a in asg if isinstance(a.value, ast.BoolOp) and isinstance(a.value.op, ast.Or)
+                  and norm(a.value.values[0]) == "aim_weights"]
+        if truthy:
+            rep.violation("R1.default-aim-weights", f.qual, "aim_weights",
+                          f"`{norm(truthy[0])}` truth-tests the argument: an array of weights (which MolGrid accepts) raises "
+                          f"'truth value of an array is ambiguous', so the constructor rejects what the grid built by hand "
+                          f"takes", repo.rel("molgrid", truthy[0]))
+        elif okd:
+            rep.ok("R1.default-aim-weights", f"MolGrid.{cname}", repo.rel("molgrid", (dflt or asg)[0]), "None -> BeckeWeights")
+        elif not asg and not dflt:
             rep.violation("R1.default-aim-weights", f.qual, "aim_weights",
                           "aim_weights=None is not replaced by the documented default BeckeWeights", f.loc())
+        else:
+            raise AnalysisError(f"unrecognised idiom: default handling of aim_weights in MolGrid.{cname}")
         # container dispatch
         rule_dispatch(rep, repo, f)
     rep.floor("constructor parameters", n_par, 18)
